@@ -26,6 +26,8 @@ KINDS = ["call", "notify", "batch", "invalid", "fail", "slow", "truncated", "sys
 
 class Harness(object):
     def __init__(self, server, pool, family, clients, lifecycle, gran):
+        self.other_pool = server.endswith("+other-pool")
+        server = server.split("+")[0]
         self.server_kind, self.pool_cfg, self.family = server, pool, family
         self.clients = clients  # tuple of tuples of request kinds
         self.lifecycle = lifecycle
@@ -55,6 +57,11 @@ class Harness(object):
     def sysexit(self, token):
         self.execs[token] = self.execs.get(token, 0) + 1
         raise SystemExit("exit-" + token)
+
+    def nap(self, token):
+        self.execs[token] = self.execs.get(token, 0) + 1
+        sched.S.sleep(2)  # virtual time: a slow method that finishes by itself
+        return token
 
     def slow(self, token):
         self.execs[token] = self.execs.get(token, 0) + 1
@@ -131,6 +138,8 @@ class Harness(object):
                         self.results[key] = ("val", "no error")
                     except jsonrpclib.ProtocolError as ex:
                         self.results[key] = ("protocol-error", ex.args[0][0] if ex.args and isinstance(ex.args[0], tuple) else None, str(ex))
+                elif kind == "nap":
+                    self.results[key] = ("val", p.nap(tok))
                 elif kind == "slow":
                     self.gates[tok] = sched.Event() if tok not in self.gates else self.gates[tok]
                     self.results[key] = ("val", p.slow(tok))
@@ -169,6 +178,13 @@ class Harness(object):
         srv.register_function(self.fail, "fail")
         srv.register_function(self.slow, "slow")
         srv.register_function(self.sysexit, "sysexit")
+        srv.register_function(self.nap, "nap")
+        other = None
+        if self.other_pool:
+            # a second, independent pool alive in the same process (here: the server's notification pool) with an idle worker
+            other = tp.ThreadPool(2, 1, logname="other-pool")
+            other.start()
+            srv.set_notification_pool(other)
         life = self.lifecycle
         serving = None
         self.phase = "constructed"
@@ -205,6 +221,9 @@ class Harness(object):
             for t in cts:
                 self.blocked_in = "join-client"
                 t.join()
+        if other is not None:
+            self.blocked_in = "stop-other-pool"
+            other.stop()
         self.blocked_in = None
         self.finished = True
 
@@ -243,7 +262,7 @@ class Harness(object):
                     if not inflight:
                         v.append(("C12/request-failed-on-a-serving-server/%s" % kind, "%s raised %s: %s" % (where, res[1], res[2])))
                     continue
-                if kind in ("call", "slow"):
+                if kind in ("call", "slow", "nap"):
                     if res != ("val", tok):
                         v.append(("C12/reply-is-not-the-response-to-this-request", "%s got %r, expected %r" % (where, res, tok)))
                     if self.execs.get(tok, 0) != 1:
@@ -296,11 +315,29 @@ def make(server, pool, family, clients, lifecycle, gran):
 
 
 def spec(server, pool, family, clients, lifecycle, gran="sync"):
-    label = "%s%s/%s/%s/%s/%s" % (server, "" if pool is None else "(%d,%d)" % tuple(pool), family, "|".join("+".join(c) for c in clients) or "no-clients", lifecycle, gran)
+    cl = "|".join("+".join(c) for c in clients) or "no-clients"
+    if len(clients) > 4 and len(set(clients)) == 1:
+        cl = "%dx(%s)" % (len(clients), "+".join(clients[0]))
+    label = "%s%s/%s/%s/%s/%s" % (server, "" if pool is None else "(%d,%d)" % tuple(pool), family, cl, lifecycle, gran)
     return (("checks.c12", "make", (server, pool, family, clients, lifecycle, gran)), label)
 
 
 SERVERS = [("simple", None), ("pooled", None), ("pooled", (1, 1)), ("pooled", (1, 0)), ("pooled", (2, 0))]
+
+
+def extra_harnesses(tier):
+    h = []
+    # another started pool in the same process: closing the server terminates, and stops only its own pool
+    for server, pool in (("pooled+other-pool", None), ("pooled+other-pool", (1, 1)), ("simple+other-pool", None)):
+        h.append(spec(server, pool, "tcp", (("call", "notify"),), "normal") + (1,))
+        h.append(spec(server, pool, "tcp", (), "normal") + (1,))
+    # many simultaneous clients of slow methods (beyond the default request pool's 30 workers), default schedule only
+    for n in ((70,) if tier == "quick" else (35, 70, 130)):
+        h.append(spec("pooled", None, "tcp", ((("nap",),) * n), "normal") + (0, {"F": 0}))
+    h.append(spec("simple", None, "tcp", ((("nap",),) * 40), "normal") + (0, {"F": 0}))
+    h.append(spec("pooled", (2, 0), "unix", ((("call", "nap"),) * 12), "normal") + (0, {"F": 0}))
+    h.append(spec("pooled", (1, 0), "tcp", ((("nap",),) * 3), "normal") + (1,))
+    return h
 
 
 def harnesses(tier):
@@ -322,6 +359,7 @@ def harnesses(tier):
         h.append(spec("simple", None, "tcp", (("slow",), ("call",)), "close-with-inflight") + (1,))
         h.append(spec("pooled", (1, 1), "tcp", two[0], "normal") + (1,))
         h.append(spec("pooled", None, "tcp", two[3], "normal") + (1,))
+        h += extra_harnesses(tier)
         return h
     three = [(("call",), ("call",), ("call",)), (("call",), ("invalid",), ("notify",)), (("batch",), ("fail",), ("call",)),
              (("call", "call"), ("call", "notify"))]
@@ -334,6 +372,7 @@ def harnesses(tier):
         for clients in three:
             h.append(spec(server, pool, "tcp", clients, "normal") + (1,))
         h.append(spec(server, pool, "tcp", (("call",), ("call",)), "normal", "line") + (1,))
+    h += extra_harnesses(tier)
     return h
 
 
@@ -354,7 +393,8 @@ META = {
     "serial_legs": ("schedules",),
     "technique": "stateless model checking of the real servers, request handler and clients over an in-memory network whose blocking operations are "
     "scheduling points: exhaustive schedule enumeration with iterative preemption bounding, non-termination decided by the scheduler's deadlock verdict",
-    "rule": "harness = server (Simple, Pooled with default pool (30,0) or user pools (1,1) (1,0) (2,0)) x listener (TCP, Unix) x client programs (1-2 clients "
+    "rule": "additionally: servers next to a second started pool (their notification pool), 70 (thorough 35/70/130) simultaneous clients of a slow method on "
+    "the default request pool, 40 on a plain server, 12 x (call, slow call) on a (2,0) pool over Unix sockets - default hand-over order at blocking points (F=0), no preemption; 3 clients of the slow method on a (1,0) pool with the ordinary ladder; harness = server (Simple, Pooled with default pool (30,0) or user pools (1,1) (1,0) (2,0)) x listener (TCP, Unix) x client programs (1-2 clients "
     "(thorough 3), 1-2 requests each from {call, notification, batch, malformed body, truncated body with half-close, failing method, method raising SystemExit, gated slow method}) x life-cycle (serve/shutdown/"
     "server_close, server_close without serving, double shutdown and close, shutdown with a gated request in flight); every schedule up to the per-harness "
     "completed preemption level; non-trivial = execution with a choice point",
